@@ -1,7 +1,7 @@
 """C08 — missing day/month completed exactly as configured; period is truthful (E1)."""
 from datetime import datetime
 
-from .. import api
+from .. import api, clock
 from ..refmodel import cal
 from ..space import Product
 
@@ -76,6 +76,9 @@ def spaces(tier, seed):
                                          "pd": ["first", "last"], "pm": ["first", "last"], "base": [0, 9], "parser": ["custom"]}))
     sp.append(Product("custom-full-unaltered", {"y": [1900, 2024], "m": range(1, 13), "d": [1, 28, 29, 30, 31], "form": ["YYYY-MM-DD", "YYYY DDD"],
                                                 "pd": ["first", "last"], "pm": ["first", "last"], "base": [0], "parser": ["custom"]}))
+    sp.append(Product("custom-formats-current-day-follows-the-clock", {"y": [1900, 2015, 2016], "m": range(1, 13), "form": ["MM/YYYY", "Month YYYY"],
+                                                                       "cd1": [1, 15, 29, 30, 31], "cd2": [1, 15, 29, 30, 31], "pm": ["first"]},
+                      note="PREFER_DAY_OF_MONTH='current' under date_formats takes today's day from the clock: two calls in one case under a virtual clock showing two different days (cd1, then cd2)"))
     if T:
         sp.append(Product("all-bases", {"y": [1900, 2000, 2023, 2024], "m": range(1, 13), "form": ["Month YYYY", "MM/YYYY"], "pd": PD, "pm": PD,
                                         "xbase": ALL_BASES, "parser": ["absolute"]}))
@@ -150,9 +153,40 @@ def run_month_only(c):
                          "detail": {"string": s, "settings": st}}
 
 
+def init_worker(tier, seed):
+    clock.install()
+
+
+def selfcheck():
+    import dateparser
+    clock.prove(dateparser.parse)
+
+
+def run_clock_days(c):
+    if c["cd1"] == c["cd2"]:
+        return None
+    s = render(c["form"], c["y"], c["m"])
+    fm = [CFMT[c["form"]]]
+    st = {"PREFER_DAY_OF_MONTH": "current", "PREFER_MONTH_OF_YEAR": c["pm"]}
+    try:
+        for i, cd in enumerate((c["cd1"], c["cd2"])):
+            clock.freeze(datetime(2021, 3, cd, 12, 0))     # March: every tested clock day exists
+            o = api.outcome_of(api.gdd, s, ["en"], None, None, st, fm, False, False)
+            exp = (datetime(c["y"], c["m"], min(cd, cal.month_len(c["y"], c["m"]))), "month")
+            got = (o[1].date_obj, o[1].period) if o[0] == "ok" else o[1:]
+            if got != exp:
+                return "bad", True, {"cls": {"form": c["form"], "parser": "custom", "pd": "current", "kind": "clock day not followed", "call": i},
+                                     "expected": exp, "observed": got, "detail": {"string": s, "settings": st, "date_formats": fm, "clock_days_in_order": [c["cd1"], c["cd2"]]}}
+    finally:
+        clock.freeze(None)
+    return "ok", True, None
+
+
 def run_case(sub, c):
     if sub == "month-only-with-a-year-preference":
         return run_month_only(c)
+    if sub == "custom-formats-current-day-follows-the-clock":
+        return run_clock_days(c)
     base = c["xbase"] if "xbase" in c else BASES[c["base"]]
     if "d" in c and not cal.valid(c["y"], c["m"], c["d"]):
         return None
